@@ -444,6 +444,15 @@ func (p *Packer) Unpack(r io.Reader, dst string) error {
 			continue
 		}
 
+		// A directory or regular file entry replaces a symlink extracted
+		// earlier under the same name; it must never be written, or have its
+		// mode and times set, through that link to wherever it points.
+		if info.IsDirectory() || info.IsRegular() {
+			if err := removeSymlink(info.Path); err != nil {
+				return fmt.Errorf("failed to replace symlink %q: %w", info.Path, err)
+			}
+		}
+
 		if info.IsDirectory() {
 			// Create the directory itself. Only its parents have been made
 			// so far, so a directory entry without any children would
@@ -567,6 +576,22 @@ func (p *Packer) validSymlink(root, path, target string) (bool, error) {
 			path, target,
 		),
 	}
+}
+
+// removeSymlink removes path if it is a symbolic link, and does nothing if
+// path does not exist or is anything else.
+func removeSymlink(path string) error {
+	fi, err := os.Lstat(path)
+	if os.IsNotExist(err) {
+		return nil
+	}
+	if err != nil {
+		return err
+	}
+	if fi.Mode()&os.ModeSymlink != 0 {
+		return os.Remove(path)
+	}
+	return nil
 }
 
 // checkFileMode is used to examine an os.FileMode and determine if it should
